@@ -47,8 +47,13 @@ RUN == -9
 ERR == -3
 G   == -2
 
+\* tgt, lo, hi: arguments / requested range of each caller's current call;
+\* acc: blocks whose true filter the current query of that caller has been
+\* given already (a second one is a duplicate); ver: blocks whose true filter
+\* has been given, in range, to any query so far (the only filters the client
+\* has had the means to verify).
 AbsInit == [tgt |-> <<RUN, RUN>>, lo |-> <<RUN, RUN>>, hi |-> <<RUN, RUN>>,
-            acc |-> <<{}, {}>>]
+            acc |-> <<{}, {}>>, ver |-> {}]
 
 \* The one kind of response the statement allows to have an effect: the true
 \* filter of a block that was asked for (in the requested range), whose filter
@@ -66,18 +71,24 @@ AbsNext(a, act, o2) ==
          [tgt |-> [a.tgt EXCEPT ![act.c] = act.tgt],
           lo  |-> [a.lo EXCEPT ![act.c] = RUN],
           hi  |-> [a.hi EXCEPT ![act.c] = RUN],
-          acc |-> [a.acc EXCEPT ![act.c] = {}]]
+          acc |-> [a.acc EXCEPT ![act.c] = {}],
+          ver |-> a.ver]
     [] act.op = "Submit" ->
          [a EXCEPT !.lo = [a.lo EXCEPT ![act.c] = act.lo],
                    !.hi = [a.hi EXCEPT ![act.c] = act.hi]]
     [] Valid(a, act, o2.ftip) ->
-         [a EXCEPT !.acc = [a.acc EXCEPT ![act.c] = @ \cup {act.b}]]
+         [a EXCEPT !.acc = [a.acc EXCEPT ![act.c] = @ \cup {act.b}],
+                   !.ver = @ \cup {act.b}]
     [] OTHER -> a
 
 Viol(a, o, act, a2, o2) ==
   LET n       == Len(o2.cache)
       valid   == Valid(a, act, o2.ftip)
-      allowed == IF valid THEN {act.b + 1} ELSE {}
+      \* A response that is not the first true, solicited filter of its block
+      \* must have no effect at all; any other step may store nothing but
+      \* filters that were verifiable (given in range to some query) so far.
+      allowed == IF act.op = "Resp" /\ ~valid THEN {}
+                 ELSE {b + 1 : b \in a2.ver}
       newC    == {i \in 1..n : o2.cache[i] # 0 /\ o.cache[i] = 0}
       newW    == {i \in 1..n : o2.wq[i] # o.wq[i] /\ (o2.wq[i] > o.wq[i] \/ o2.wq[i] < 0)}
       newD    == {i \in 1..n : o2.db[i] # 0 /\ o.db[i] = 0}
